@@ -51,6 +51,8 @@ type program struct {
 	next   int
 	direct bool         // the transaction calls the precompile itself (root = one pre node, sender = env.direct)
 	create map[int]bool // call nodes that are CREATE instructions: Body = init code, To = address of the new contract
+	child2 map[int]common.Address // round 5: CREATE2 node id -> the salted address (a pruned copy of the program has its own)
+	salt   map[int]*big.Int // round 5: the CREATE nodes that are CREATE2 instructions, with their salt (To = the salted address)
 	body   func(depth int, ctx common.Address, static bool) []*evmx.Node
 	depth  int // depth of the frame being generated (for genPre)
 	// round 4: CREATE nodes in RANDOM programs
@@ -98,6 +100,12 @@ func (e *env) isPoolCtx(a common.Address) bool {
 func (e *env) attachGen(rng *rand.Rand, p *program) {
 	if p.create == nil {
 		p.create = map[int]bool{}
+	}
+	if p.salt == nil {
+		p.salt = map[int]*big.Int{}
+	}
+	if p.child2 == nil {
+		p.child2 = map[int]common.Address{}
 	}
 	p.created, p.creators = map[common.Address]bool{}, map[common.Address]bool{}
 	var gen func(depth int, ctx common.Address, static bool) []*evmx.Node
@@ -167,6 +175,28 @@ func (e *env) attachGen(rng *rand.Rand, p *program) {
 				p.creators[ctx], p.created[child] = true, true
 				nd.Body = gen(depth+1, child, false)
 				e.cnt("random-constructor")
+				// round 5: half of them through CREATE2 — the address is keccak(0xff ++ creator ++ salt ++ keccak(init code)), known
+				// only once the constructor body is finished: the body is generated for a provisional account and re-targeted
+				if rng.Intn(2) == 0 {
+					sl := big.NewInt(int64(rng.Intn(1 << 30)))
+					if rng.Intn(4) == 0 {
+						sl = new(big.Int).Sub(new(big.Int).Lsh(big.NewInt(1), 256), big.NewInt(int64(1+rng.Intn(9)))) // 32-byte salt
+					}
+					p.salt[id] = sl
+					c2 := create2Address(ctx, sl, assembleX(nd.Body, p.create, p.salt))
+					p.retarget(nd.Body, child, c2)
+					if create2Address(ctx, sl, assembleX(nd.Body, p.create, p.salt)) == c2 {
+						delete(p.created, child)
+						p.created[c2] = true
+						nd.To = c2
+						p.child2[id] = c2
+						e.cnt("random-constructor-create2")
+					} else {
+						p.retarget(nd.Body, c2, child)
+						delete(p.salt, id)
+						e.cnt("random-constructor-create2-self-referential")
+					}
+				}
 			case r < 85 && depth < 3 && len(p.addrs) < nPool:
 				nd.Op = "call"
 				nd.Kind = evmx.Kind([]int{0, 0, 0, 0, 0, 0, 0, 1, 2, 3}[rng.Intn(10)])
@@ -226,7 +256,7 @@ func (e *env) attachGen(rng *rand.Rand, p *program) {
 // directly (uncaught; the gas sweep cuts inside the native action) and once inside a frame that reverts after the call
 // and is caught by its caller; late-failing variants inside a caught frame.  Built by rejection sampling on the same
 // argument generator, so they stay in step with it.
-var directedVariants = []string{"delegateV2", "undelegateV2", "redelegateV2", "withdraw", "approveShares", "approveShares/zero-existing", "transferShares", "transferFromShares",
+var directedVariants = []string{"delegateV2", "undelegateV2", "redelegateV2", "withdraw", "approveShares", "approveShares/zero-existing", "transferShares", "transferFromShares", "transferFromShares/exact-allowance",
 	"crossChain/origin", "crossChain/wfx", "crossChain/tst", "crossChain/hook-token", "cancelSendToExternal", "increaseBridgeFee/origin",
 	"increaseBridgeFee/wfx", "bridgeCall/value", "bridgeCall/no-value", "bridgeCall/no-value+wfx", "bridgeCall/no-value+tst", "bridgeCall/no-value+wfx+tst",
 	"bridgeCall/value+tst", "executeClaim", "delegationRewards", "delegation", "allowanceShares", "slashingInfo", "validatorList", "bridgeCoinAmount",
@@ -401,6 +431,69 @@ func (e *env) directed(rng *rand.Rand) []*program {
 	return res
 }
 
+// directedPairs (round 5): a state-changing call followed, in the same transaction, by a VIEW of what it changed, after
+// which the frame (shape 0: a code-borrowing frame that REVERTs and is caught) or the whole transaction (shape 1: INVALID)
+// is dropped — a view that tidies up what it looks at, or any write made while answering a query, shows only in such a
+// history (the record must have been zeroed / created by the earlier call)
+var directedPairs = [][2]string{{"approveShares/zero-existing", "allowanceShares/grant-to-sink"}, {"transferFromShares/exact-allowance", "allowanceShares/exact-grant"},
+	{"approveShares", "allowanceShares"}, {"delegateV2", "delegation"}, {"transferShares", "delegationRewards"}, {"crossChain/origin", "bridgeCoinAmount"}}
+
+func (e *env) directedPairPrograms(rng *rand.Rand) []*program {
+	var res []*program
+	for _, pair := range directedPairs {
+		for shape := 0; shape < 3; shape++ {
+			p := &program{meta: map[int]*meta{}, nodes: map[int]*evmx.Node{}, ctxOf: map[int]common.Address{}, inner: map[int]*inner{}, used: map[int]bool{}}
+			p.addrs = []common.Address{e.pool[0], e.pool[1]}
+			e.attachGen(rng, p)
+			p.next = 12
+			p.depth = 2
+			p.noHook = true
+			ctx := e.pool[0]
+			var nds [2]*evmx.Node
+			for i, want := range pair {
+				for try := 0; try < 40000 && nds[i] == nil; try++ {
+					nd := &evmx.Node{ID: 10 + i}
+					mt := e.genPre(rng, p, nd, ctx, false)
+					if mt.variant != want || nd.Kind != evmx.KCall || nd.Gas != 0 || nd.Swallow || mt.mode == "fail" || p.inner[nd.ID] != nil || (nd.Value != nil && nd.Value.BitLen() > 90) {
+						delete(p.inner, nd.ID)
+						continue
+					}
+					nd.Op = "pre"
+					p.meta[nd.ID], p.nodes[nd.ID], p.ctxOf[nd.ID] = mt, nd, ctx
+					nds[i] = nd
+				}
+			}
+			p.noHook = false
+			if nds[0] == nil || nds[1] == nil {
+				e.cnt("directed-not-found:pair:" + pair[0] + "+" + pair[1])
+				continue
+			}
+			mk := func(id int, c common.Address) *evmx.Node {
+				n := &evmx.Node{Op: "sstore", ID: id, Slot: uint64(id), Val: 1}
+				p.nodes[id], p.ctxOf[id] = n, c
+				return n
+			}
+			switch shape {
+			case 0: // the view runs in a DELEGATECALL frame (same caller identity) that REVERTs afterwards and is caught
+				rv := &evmx.Node{Op: "revert", ID: 4}
+				p.nodes[4], p.ctxOf[4] = rv, ctx
+				cl := &evmx.Node{Op: "call", ID: 5, Kind: evmx.KDelegate, To: e.pool[1], Swallow: true, Body: []*evmx.Node{mk(3, ctx), nds[1], rv}}
+				p.nodes[5], p.ctxOf[5] = cl, ctx
+				p.root = []*evmx.Node{mk(1, ctx), nds[0], cl, mk(2, ctx)}
+			case 1: // the whole transaction fails after the view
+				iv := &evmx.Node{Op: "invalid", ID: 4}
+				p.nodes[4], p.ctxOf[4] = iv, ctx
+				p.root = []*evmx.Node{mk(1, ctx), nds[0], nds[1], iv}
+			default: // everything is kept
+				p.root = []*evmx.Node{mk(1, ctx), nds[0], nds[1], mk(2, ctx)}
+			}
+			res = append(res, p)
+			e.cnt("directed:pair:" + pair[0] + "+" + pair[1])
+		}
+	}
+	return res
+}
+
 var preMethods = []string{"delegateV2", "delegateV2", "undelegateV2", "redelegateV2", "withdraw", "approveShares", "approveShares",
 	"transferShares", "transferFromShares", "transferFromShares", "crossChain", "crossChain", "crossChain", "cancelSendToExternal", "cancelSendToExternal",
 	"increaseBridgeFee", "increaseBridgeFee", "bridgeCall", "bridgeCall", "bridgeCall", "executeClaim", "executeClaim", "delegation", "hasOracle", "delegationRewards", "delegationRewards",
@@ -486,12 +579,30 @@ func (e *env) genPre(rng *rand.Rand, p *program, nd *evmx.Node, ctx common.Addre
 			val, from = e.vals[0], e.owner2.Address()
 			amt = func(k int64) *big.Int { return new(big.Int).Mul(big.NewInt(2), big.NewInt(1e18)) }
 			variant = m + "/late-insufficient-shares"
+		} else if pi, isPool := e.poolIdx[ctx]; mode == "ok" && isPool && rng.Intn(4) == 0 {
+			// round 5, boundary: the transfer spends the grant to the LAST share (allowance = amount); a second one by the same
+			// caller succeeds iff the first was dropped (the grant is a resource consumed by kept calls only)
+			from = e.owner3.Address()
+			amt = func(k int64) *big.Int { return big.NewInt(exactAllow) }
+			variant = m + "/exact-allowance"
+			mode = fmt.Sprintf("use:%d", resAllow+pi)
 		}
 		data, err = sabi.Pack(m, val, from, e.sink, amt(10))
 	case "delegation", "delegationRewards":
 		data, err = sabi.Pack(m, val, ctx)
 	case "allowanceShares":
-		data, err = sabi.Pack(m, val, e.owner.Address(), ctx)
+		// round 5: also the view of a grant that an EARLIER call of the same transaction may have spent to the last share
+		// (owner3 -> this contract) or revoked (this contract -> sink): a record that exists with the value zero
+		switch _, isPool := e.poolIdx[ctx]; {
+		case isPool && rng.Intn(3) == 0:
+			data, err = sabi.Pack(m, val, e.owner3.Address(), ctx)
+			variant = m + "/exact-grant"
+		case rng.Intn(3) == 0:
+			data, err = sabi.Pack(m, val, ctx, e.sink)
+			variant = m + "/grant-to-sink"
+		default:
+			data, err = sabi.Pack(m, val, e.owner.Address(), ctx)
+		}
 	case "slashingInfo":
 		data, err = sabi.Pack(m, val)
 	case "validatorList":
